@@ -47,7 +47,7 @@ enum {
     F_SCRIPT_NOW, F_SCRIPT_PAST, F_SCRIPT_CURRENT, F_SCRIPT_FUTURE, F_RESCHED_SELF, F_CANCEL_IN_BATCH, F_CANCEL_ASAP,
     F_CANCEL_TIMED, F_NESTED_CANCEL, F_EQUAL_TIMES, F_TIME_MAX, F_TIMED_ZERO, F_CLEANUP_PENDING, F_CLEANUP_LOOPED,
     F_RUN_BACKWARDS, F_NOT_DUE_LEFT, F_HEAP_GREW, F_MIXED_BATCH, F_SELF_CANCEL, F_CANCEL_NEW_IN_BATCH, F_JUST_EARLY,
-    F_EXACTLY_DUE, F_TOP_CANCEL, F_RUN_EMPTY, F_CANCEL_UNSCHEDULED, F_CANCEL_UNSCHEDULED_HEAP
+    F_EXACTLY_DUE, F_TOP_CANCEL, F_RUN_EMPTY, F_CANCEL_UNSCHEDULED, F_CANCEL_UNSCHEDULED_HEAP, F_CLEANUP_CHAIN_17
 };
 
 struct slot {
@@ -67,6 +67,8 @@ struct inc {
     bool from_script;
     int invocations;
     int status;
+    int chain;  /* > 0: when invoked (either status) the function schedules a successor carrying chain-1 */
+    int cdepth; /* generations this chain has advanced inside the current clean_up call */
 };
 
 struct ctx {
@@ -700,6 +702,27 @@ static void run_script(struct slot *sl, struct aws_task *task, int ii, enum aws_
     if (task) {
         retire(task, ii);
     }
+    /* chains: one successor per invocation, for as many generations as the head was given (not limited by MAX_GEN);
+     * inside clean_up every generation needs another pass of its loop */
+    int chain = s_inc[ii].chain;
+    if (chain > 0 && s_ninc < MAX_INC - 8) {
+        int ns = find_idle_slot(r);
+        if (ns >= 0) {
+            int kind = (int)mon_below(r, 4);
+            uint64_t t = kind == A_NOW ? 0 : script_time(r, kind);
+            int ni = do_schedule(ns, NULL, kind == A_NOW, t, gen, true);
+            s_inc[ni].chain = chain - 1;
+            bool in_cleanup = s_ncx > 0 && s_cx[0].kind == CX_CLEAN;
+            s_inc[ni].cdepth = in_cleanup ? s_inc[ii].cdepth + 1 : 0;
+            if (s_inc[ni].cdepth >= 17) {
+                mon_flag(F_CLEANUP_CHAIN_17);
+            }
+            mon_count_max("max_generations_unwound_by_one_clean_up", (uint64_t)s_inc[ni].cdepth);
+            hist(" chain%d->%s", chain, inc_str(ni));
+            s_saw_reentrant = true;
+            ++s_script_actions;
+        }
+    }
 }
 
 /* ------------------------------------------------------------------ top-level checks */
@@ -1054,15 +1077,22 @@ static void run_case(uint64_t case_idx) {
             int si = find_idle_slot(r);
             if (si < 0) {
                 what = "skip";
-            } else if (mon_chance(r, 2, 5)) {
-                int ii = do_schedule(si, NULL, true, 0, 0, false);
-                hist(" now(%s)", inc_str(ii));
-                what = "schedule_now";
             } else {
-                uint64_t t = gen_time(r);
-                int ii = do_schedule(si, NULL, false, t, 0, false);
-                hist(" fut(%s)", inc_str(ii));
-                what = "schedule_future";
+                int ii;
+                if (mon_chance(r, 2, 5)) {
+                    ii = do_schedule(si, NULL, true, 0, 0, false);
+                    hist(" now(%s)", inc_str(ii));
+                    what = "schedule_now";
+                } else {
+                    uint64_t t = gen_time(r);
+                    ii = do_schedule(si, NULL, false, t, 0, false);
+                    hist(" fut(%s)", inc_str(ii));
+                    what = "schedule_future";
+                }
+                if (mon_chance(r, 1, 30)) {
+                    s_inc[ii].chain = 3 + (int)mon_below(r, 60);
+                    hist("(chain %d)", s_inc[ii].chain);
+                }
             }
         } else if (pick < w_sched + 12) {
             int cand[MAX_SLOTS], nc = 0;
@@ -1134,7 +1164,7 @@ int main(int argc, char **argv) {
         "run_all_left_not_due_tasks", "heap_grew_beyond_default", "batch_with_run_now_and_timed", "task_cancels_its_own_reschedule",
         "cancel_of_task_scheduled_during_batch", "task_due_one_tick_after_run_all_time", "task_due_exactly_at_run_all_time",
         "top_level_cancel", "run_all_with_nothing_due", "cancel_of_never_scheduled_task",
-        "cancel_of_never_scheduled_task_while_heap_nonempty"};
+        "cancel_of_never_scheduled_task_while_heap_nonempty", "clean_up_unwound_chain_of_17_or_more_generations"};
     for (int i = 0; i < (int)(sizeof(names) / sizeof(names[0])); ++i) {
         mon_flag_name(i, names[i]);
     }
